@@ -146,7 +146,6 @@ structure Input where
   rootFile : File
   rootInStore : Bool               -- reading the root location yields the root file (else a read error)
   store : List (Url × File)
-  known : List Url := []           -- locations of the documents loaded by EARLIER loads on the same `Loader` (read, or given as a located root)
 
 /-- the root's location: none for `LoadFromData` -/
 def Input.root (inp : Input) : Option Url :=
@@ -365,7 +364,7 @@ def loadDoc (inp : Input) : Nat → Bool → Url → St → St × Bool
 end
 
 /-- `LoadFromFile` / `LoadFromURI`, `LoadFromDataWithPath`, `LoadFromData` on a loader in state `st0` (what an earlier
-    load left behind: `visitedDocuments`, the resolved components of those documents; see `carry`) -/
+    load left behind: nothing since c555d93, see `carry`; the parameter documents that the entry points start from the loader's state -/
 def loadFrom (inp : Input) (fuel : Nat) (st0 : St) : St × Bool :=
   match inp.entry with
   | .file =>
@@ -390,41 +389,33 @@ def load (inp : Input) (fuel : Nat) : St × Bool := loadFrom inp fuel St.init
 
 /-! ### histories: several loads on ONE `Loader`
 
-What survives a load: `visitedDocuments` (never reset), the documents themselves with the components already
-resolved in them (the marks), and `rootLocation` / `rootDir`, which the loader assigns but never reads (table
-LoaderState).  `resetVisitedPathItemRefs` clears the in-progress set and the callbacks at every entry point.  The
-components of a document loaded WITHOUT a location cannot be reached again (marks keyed or valued there are dropped). -/
+Every entry point (`LoadFromURI`, `LoadFromData`, `LoadFromDataWithPath`) calls `resetVisitedPathItemRefs`, which
+clears the in-progress set, the callbacks AND (since c555d93) `visitedDocuments`: the documents cache belongs to one
+load.  What survives a load is `rootLocation` / `rootDir`, which the loader assigns but never reads, and the caller's
+settings (table LoaderState).  So nothing of the state the model tracks is carried: -/
 
-def carry (st : St) : St :=
-  { St.init with
-    docs := st.docs
-    gen := st.gen
-    marks := st.marks.filter (fun kv => kv.1.1.1.isSome && kv.2.1.1.isSome) }
-
-/-- the locations of the documents a load leaves loaded in the loader: everything it read, and its root -/
-def loadedBy (inp : Input) (st : St) : List Url := st.log ++ inp.root.toList
+/-- the loader state the next load starts from (`resetVisitedPathItemRefs`) -/
+def carry (_ : St) : St := St.init
 
 structure StepOut where
-  inp : Input            -- the load, with `known` = what the earlier loads loaded
+  inp : Input
   st : St
   ok : Bool
 
-def runH : List Input → Nat → List Url → St → List StepOut
-  | [], _, _, _ => []
-  | inp :: rest, fuel, hist, st0 =>
-    ⟨{ inp with known := hist }, (loadFrom { inp with known := hist } fuel st0).1, (loadFrom { inp with known := hist } fuel st0).2⟩ ::
-      runH rest fuel (hist ++ loadedBy inp (loadFrom { inp with known := hist } fuel st0).1)
-        (carry (loadFrom { inp with known := hist } fuel st0).1)
+def runH : List Input → Nat → St → List StepOut
+  | [], _, _ => []
+  | inp :: rest, fuel, st0 =>
+    ⟨inp, (loadFrom inp fuel st0).1, (loadFrom inp fuel st0).2⟩ :: runH rest fuel (carry (loadFrom inp fuel st0).1)
 
 /-- the loads of a history, each with the state it ends in -/
-def history (steps : List Input) (fuel : Nat) : List StepOut := runH steps fuel [] St.init
+def history (steps : List Input) (fuel : Nat) : List StepOut := runH steps fuel St.init
 
 /-! ### spec (written from the property text) -/
 
-/-- the document at `d` has been loaded before: it is the root of this load, or `d` was read earlier in this load,
-    or the loader loaded it in an earlier load -/
+/-- the document at `d` has been loaded before: it is the root, or `d` was read earlier (in THIS load: what an
+    earlier load on the same `Loader` read does not count, see `history`) -/
 def Loaded (inp : Input) (pre : List Url) (d : Option Url) : Prop :=
-  d = inp.root ∨ (∃ u ∈ pre, d = some u) ∨ (∃ u ∈ inp.known, d = some u)
+  d = inp.root ∨ ∃ u ∈ pre, d = some u
 
 /-- `u` is the root, or the resolution of a reference found in an already-loaded document against that
     document's own location -/
@@ -444,7 +435,7 @@ def Spec (inp : Input) (log : List Url) : Prop :=
 
 def justifiedB (inp : Input) (pre : List Url) (u : Url) : Bool :=
   decide (some u = inp.root) ||
-  (inp.root :: (pre.map some ++ inp.known.map some)).any (fun d =>
+  (inp.root :: pre.map some).any (fun d =>
     (refsAt inp d).any (fun r => decide (r.form ≠ Form.internal) && decide (u = resolvePath d r.url)))
 
 def allJustFrom (inp : Input) : List Url → List Url → Bool
